@@ -37,7 +37,7 @@ def itTxt (bs : List Nat) : String :=
   let ob := fun (o : Option Nat) => match o with | some x => toString x | none => "-"
   let sd := fun (l : List Nat) => if l.isEmpty then "-" else String.join (l.map toString)
   let step3 := (bs.zipIdx.filter fun x => x.2 % 3 == 0).map (·.1)
-  s!"{n}:{ob bs.getLast?}:{sd (bs.drop (n / 2))}:{sd step3}:{ob bs.getLast?}:-:1:1"
+  s!"{n}:{ob bs.getLast?}:{sd (bs.drop (n / 2))}:{sd step3}:{ob bs.getLast?}:-:1:1:{statefulTxt (bs.map toString)}"
 
 /-- the model: `none` = panic -/
 def runM (d : T) : HOp → Option T
